@@ -11,7 +11,9 @@ CHECKS = {
              "multi-line spans, skipped lines). Every emitted behaviour (318 k) is replayed into a real mypy.errors.Errors; real builds of the "
              "check-*.test corpus are recorded from outside and validated trace by trace by TLC; `# type: ignore` placements and --disable / "
              "--enable-error-code variants must print exactly what the spec predicts from the unmodified run's reports (metamorphic); the exit "
-             "status is bound through main.main and `python -m mypy`. Three spec-level mutants are rejected on every run.",
+             "status is bound through main.main and `python -m mypy`. Attached notes are defined in the spec (parent link, or following the error with the same code): AttachedExact demands that an ignore on ANY line of an "
+             "error's origin span removes the error and all its attached notes; ignores are placed on every line of multi-line origin spans of the corpus and of 13 generated multi-line programs. "
+             "Four spec-level mutants are rejected on every run.",
         design_ref="DESIGN.md 5.C13, Appendix D, notes/C13.md",
         note="bounded alphabets (<=2 reports in replay, <=3 in one slice); many_errors_threshold hiding excluded; watcher-swallowed derived notes and "
              "runs whose ignore map changes mid-file are skipped and counted; three known findings (an unmatched coded ignore drops the 'did you "
@@ -42,7 +44,13 @@ CHECKS = {
              "error_kind, ...). The contracts the machine reads off the IR are bound to the generated C: probe programs and a generated family are "
              "compiled by the tree's mypyc and run in a child on tracked objects; sys.getrefcount deltas must be 0 for every way of leaving, "
              "UnboundLocalError / AttributeError must match CPython, a dead child is a violation, and the machine's exit-kind predictions must "
-             "contain what was observed. Five spec-level mutants are rejected on every run.",
+             "contain what was observed. Five spec-level mutants are rejected on every run. "
+             "The contracts the machine trusts are additionally bound to the C code by three generated families, each compiled by the tree's mypyc and run against CPython on tracked objects: "
+             "a definedness family (11 local types x 17 may-be-unbound shapes x every way of leaving), a primitive-contract family (one function per registered primitive of "
+             "mypyc/primitives/registry.py expressible from typed source + syntax-only primitives: 311 functions, 8.2 k input cases over hit / miss / default / out-of-range / exception paths; "
+             "179 of 181 targeted registry C functions reached) and a wrapper family (119 functions and methods over parameter kinds x 10 parameter types, 1.25 k calls from interpreted code with "
+             "good, k-th-wrong-typed, missing, extra, duplicate and unknown arguments): reference-count change 0 per path, TypeError where CPython's binding raises, no dead child; all family "
+             "functions also pass through TLC at both IR stages.",
         design_ref="DESIGN.md 5.C06, notes/C06.md",
         note="heap state across yields, out-parameters and bitmap-tracked locals are probed only; OOM paths never exercised; quick: irbuild / "
              "refcount / exceptions programs + run-generators / run-exceptions + a seeded 12 % of the other run programs; nine known-finding keys "
@@ -70,17 +78,22 @@ CHECKS = {
     ),
     "C05": dict(
         category="exploration",
-        text="Differential vs CPython of TLC-generated programs for three mechanisms only: structured control flow (CtrlFlow.tla: try / except / "
+        text="Differential vs CPython of TLC-generated programs for five mechanisms only: structured control flow (CtrlFlow.tla: try / except / "
              "else / finally x return / break / continue / raise / bare raise x loops x nested calls, as a control-stack machine with a pending "
-             "completion), wrapper argument binding (ArgBind.tla) and method / property resolution on native classes and traits (Dispatch.tla over "
-             "C3.tla). TLC emits behaviours with their expected traces; each is validated against CPython (drift = machinery failure) and replayed "
+             "completion), wrapper argument binding (ArgBind.tla), method / property resolution on native classes and traits (Dispatch.tla over "
+             "C3.tla), special-method slot contracts of native classes (Slots.tla: __hash__ / __eq__, __len__ / __bool__, __contains__ / __getitem__ / __setitem__ / "
+             "__delitem__, rich comparisons incl. NotImplemented / reflected / subclass-first, __add__ / __radd__ / __iadd__; each operation performed by interpreted and "
+             "by compiled callers) and for loops over dict / dict views / set / list / reversed / enumerate / zip / tuple / str / range whose body mutates the container "
+             "(IterMut.tla: elements seen, RuntimeError, final container). TLC emits behaviours with their expected traces; each is validated against CPython (drift = machinery failure) and replayed "
              "into mypyc-compiled extension modules built from the working tree; death of the child running compiled code is a violation.",
         design_ref="DESIGN.md 5.C05, notes/C05.md",
         note="the rest of C05 (expressions, container primitives, generators, async, attributes) is not reached by the specification; programs "
              "mypyc rejects are excluded and counted (compile_rejected); quick builds -O0 single group, thorough -O0/-O3 x single / multi_file / "
-             "separate; four known findings (bare raise without active exception, super() bound statically through traits, positional-only "
-             "parameters accepted as keywords, TypeError wording)",
-        technique="TLA+ operational semantics / binding / dispatch specs; TLC-emitted programs validated against CPython and replayed into mypyc-compiled extensions",
+             "separate; Slots: one binary operator, two comparison pairs, no __iter__ / __call__ / descriptors; IterMut: <=3 elements, one mutation per loop; quick "
+             "compiles a fixed subset + seeded sample of the larger families; 13 known findings (bare raise without active exception, super() bound statically through traits, "
+             "positional-only parameters accepted as keywords, TypeError wording, negative __len__ not rejected, range bound re-read each iteration, binary-operator wrapper "
+             "dispatch, ...; findings.d/C05.json)",
+        technique="TLA+ operational semantics / binding / dispatch / slot-contract / iterator specs (spec-level mutants must be rejected by CPython); TLC-emitted programs validated against CPython and replayed into mypyc-compiled extensions",
     ),
     "C08": dict(
         category="model_checking",
@@ -114,7 +127,9 @@ CHECKS = {
         text="TLC checks, on Config.tla, that the transcription of process_options / build_per_module_cache / clone_for_module / compile_glob / "
              "inline application equals the documented precedence rule, for every ordered selection of <=4 sections from 6 patterns x unset / 2 "
              "values per source x 39 module names (3-value and second-alphabet configs too); spec-level mutants (NoSort, ConcreteFirst, "
-             "FirstGlobWins) are rejected on every run. Every emitted configuration is replayed into the real code (process_options, "
+             "FirstGlobWins, UmbrellaBeforeConfig) are rejected on every run; umbrella settings (--strict / strict = True) are sources of their own, ranked at the place they are "
+             "written, and are put in conflict with every member option through every other source; a differential section-locality check demands that a key written into "
+             "[mypy-pkg.mod] changes neither the global options nor unmatched modules. Every emitted configuration is replayed into the real code (process_options, "
              "clone_for_module, parse_mypy_comments, apply_changes) under rotating options, spellings and file formats (mypy.ini / setup.cfg / "
              "pyproject.toml), a sample goes through real builds and `python -m mypy`. Source equivalence: every flag and ini_config_types key x "
              "every accepting source, comparing Options snapshots and, for witnessed settings, diagnostics.",
